@@ -100,6 +100,18 @@ OddPart(n) == IF n = 0 THEN 0 ELSE IF n % 2 = 0 THEN OddPart(n \div 2) ELSE n
 Pow2s == {1, 2, 4, 8, 16, 32, 64, 128, 256, 512, 1024, 2048, 4096, 8192, 16384}
 RepF2(q) == q[2] = 0 \/ q[1] = 0 \/ (q[2] \in Pow2s /\ OddPart(Abs(q[1])) < 2048 /\ Abs(q[1]) <= 65504 * q[2])
 
+\* ---- 64-bit integers as four 16-bit limbs of the two's-complement pattern (most significant first): addition modulo 2^64,
+\* which is what numpy's int64 / uint64 sums compute
+WideZero == <<0, 0, 0, 0>>
+WideAdd(x, y) ==
+  LET s4 == x[4] + y[4]
+      s3 == x[3] + y[3] + s4 \div 65536
+      s2 == x[2] + y[2] + s3 \div 65536
+      s1 == x[1] + y[1] + s2 \div 65536
+  IN <<s1 % 65536, s2 % 65536, s3 % 65536, s4 % 65536>>
+RECURSIVE WideSum(_)
+WideSum(q) == IF q = <<>> THEN WideZero ELSE WideAdd(WideSum(Tail(q)), Head(q))
+
 \* ---- casting a value of dtype a to dtype b (ndarray.astype); claimed only where CastOK
 Cast(a, b, v) ==
   IF IsFlt(a) THEN
